@@ -318,6 +318,8 @@ type c02Msg struct {
 	vd    [2]*gtfsrt.VehicleDescriptor
 	trip  [2]bool
 	assoc [2]bool
+	// trip ids named by position entities that carry no vehicle descriptor (each by one such entity)
+	idlessTrips []string
 }
 
 func genC02(c *Ctx, rich bool) c02Msg {
@@ -371,6 +373,22 @@ func genC02(c *Ctx, rich bool) c02Msg {
 	if present(c, "e.vp0.present", rich) {
 		vp := genVehiclePosition(c, "e.vp0.", 5, rich)
 		ents = append(ents, &gtfsrt.FeedEntity{Id: sp("vp0"), Vehicle: vp})
+		// further vehicles without any descriptor; each of them (and vp0) may name a trip of its own
+		more := c.Choose("e.vp0.more_vehicles_without_descriptor", 3)
+		named := c.Choose("e.vp0.each_names_a_trip_of_its_own", 2) == 1
+		for k := 0; k <= more; k++ {
+			e := ents[len(ents)-1]
+			if k > 0 {
+				lat, lon := float32(10+k), float32(20+k)
+				e = &gtfsrt.FeedEntity{Id: sp(fmt.Sprintf("vp0-%d", k)), Vehicle: &gtfsrt.VehiclePosition{Position: &gtfsrt.Position{Latitude: &lat, Longitude: &lon}, StopId: sp(fmt.Sprintf("VS0-%d", k))}}
+				ents = append(ents, e)
+			}
+			if named {
+				id := fmt.Sprintf("trip-of-a-nameless-vehicle-%d", k)
+				e.Vehicle.Trip = &gtfsrt.TripDescriptor{TripId: sp(id)}
+				out.idlessTrips = append(out.idlessTrips, id)
+			}
+		}
 	}
 	switch c.Choose("entity_order", 3) {
 	case 1:
@@ -395,6 +413,31 @@ func genC02(c *Ctx, rich bool) c02Msg {
 func c02CheckLinks(c *Ctx, g c02Msg, r *gtfs.Realtime, tz *time.Location, label string) {
 	if vid0, vid1 := refVehicleID(g.vd[0]), refVehicleID(g.vd[1]); vid0 == nil || vid1 == nil {
 		return // vehicles without any identifier: links are C04's business
+	}
+	// vehicles without identifier: those whose position entity names a trip lead to that trip (and back)
+	{
+		got := map[string]int{}
+		for i := range r.Vehicles {
+			v := &r.Vehicles[i]
+			if v.ID != nil && *v.ID != (gtfs.VehicleID{}) {
+				continue
+			}
+			if v.Trip != nil {
+				got[v.Trip.ID.ID]++
+				if v.Trip.Vehicle == nil || (v.Trip.Vehicle.ID != nil && *v.Trip.Vehicle.ID != (gtfs.VehicleID{})) {
+					c.Fail("transcription"+label+":Vehicle.Trip", "a vehicle without identifier names trip %q, but that trip does not lead back to a vehicle without identifier", v.Trip.ID.ID)
+				}
+			}
+		}
+		for _, id := range g.idlessTrips {
+			if got[id] != 1 {
+				c.Fail("transcription"+label+":Vehicle.Trip", "a position entity without vehicle descriptor names trip %q: %d vehicles without identifier lead to it, want 1 (%d such entities in the message)", id, got[id], len(g.idlessTrips))
+			}
+			delete(got, id)
+		}
+		for id, n := range got {
+			c.Fail("transcription"+label+":Vehicle.Trip", "%d vehicles without identifier lead to trip %q, which no such entity names", n, id)
+		}
 	}
 	for i := 0; i < 2; i++ {
 		if !g.trip[i] {
